@@ -280,7 +280,11 @@ def call_sim(case, G, lab, tr, full, rules=None):
     elif init["kind"] == "rho":
         kw["rho"] = float(F(init["rho"]))
     if sim in HAS_RECS and case["recs"]:
-        kw["initial_recovereds"] = [lab(i) for i in case["recs"]]
+        recs_ = [lab(i) for i in case["recs"]]
+        # the collection of initially recovered nodes as the caller may hand it over: a list, a tuple, a dict-keys view, or a
+        # one-shot iterator (accepted by the event-driven simulators; it can be walked only once)
+        kw["initial_recovereds"] = {"list": recs_, "tuple": tuple(recs_), "dictkeys": dict.fromkeys(recs_).keys(),
+                                    "generator": (x for x in recs_)}[case.get("recs_container", "list")]
     f = getattr(EoN, sim)
     kw.update(case.get("_objs", {}))      # caller-owned initial-condition containers (C19)
     with rngmod.scripted(tr):
